@@ -136,6 +136,9 @@ var c15Cases = []c15Case{
 	{"{ // {additionalProperties: \"@t\"}\n  \"a\": 1\n}", [][2]string{{"@t", `true`}}},
 	{`@t // {nullable: true}`, [][2]string{{"@t", `{"a": null}`}}},
 	{"[\n  @a | @b\n]", [][2]string{{"@a", `{"x": 1}`}, {"@b", `[]`}}},
+	{"{\n  @k: 1,\n  \"z\": 2\n}", [][2]string{{"@k", `"a\"" // {regex: "a."}`}}},
+	{`@t`, [][2]string{{"@t", "{\n  \"kids\": [\n    @t,\n    1\n  ]\n}"}}},
+	{`@t`, [][2]string{{"@t", "{\n  \"kids\": [\n    1,\n    @t\n  ]\n}"}}},
 }
 
 // ZZC15Types: user types, or, enum, allOf, key shortcuts, optional recursion.
